@@ -40,7 +40,9 @@ Binary(x, o) ==
     \cup (IF "KronSum" \in Acts THEN {N("KronSum", <<x, o>>, NoP)} ELSE {})
     \cup (IF "BlockDiag" \in Acts
           THEN {N("BlockDiag", <<x, o>>, [mult |-> m]): m \in {<<1, 1>>, <<2, 1>>}} ELSE {})
-    \cup (IF "Product" \in Acts /\ o.k = "ScalarMul" THEN {N("Product", <<o, x>>, NoP)} ELSE {})
+    \* scalar multiple c * X; X itself not a (declared) ScalarMul: Annot!Infer reads the kind of the wrapper, the code
+    \* the class of the wrapped object (DOMAIN RESTRICTION of the annotation model, not of the rules)
+    \cup (IF "Product" \in Acts /\ o.k = "ScalarMul" /\ Strip(x).k # "ScalarMul" THEN {N("Product", <<o, x>>, NoP)} ELSE {})
 Ternary(x, o1, o2) ==
     (IF "Kronecker3" \in Acts THEN {N("Kronecker", <<x, o1, o2>>, NoP)} ELSE {})
     \cup (IF "KronSum3" \in Acts THEN {N("KronSum", <<o1, x, o2>>, NoP)} ELSE {})
@@ -67,16 +69,16 @@ ExactFs == <<[id |-> "P2", f |-> F_P2], [id |-> "R1", f |-> F_R1], [id |-> "CI",
 QA(p, q) == [n |-> p, d |-> q]
 UC(id, fn, f, al, hasalg, alg) == [id |-> id, fn |-> fn, f |-> f, al |-> al, hasalg |-> hasalg, alg |-> alg]
 NoF == F_Opaque("none")
-AUCalls == Flatten([i \in 1..Len(ExactFs) |->
-              [j \in 1..3 |-> LET a == <<"Auto", "Eig", "Eigh">>[j] IN
-                  UC("au:" \o ExactFs[i].id \o ":" \o a, "apply_unary", ExactFs[i].f, QA(0, 1), j > 1, a)]])
-PowAlphas == <<QA(-2, 1), QA(-1, 1), QA(0, 1), QA(1, 1), QA(2, 1), QA(3, 1), QA(5, 1), QA(9, 1), QA(10, 1),
+AUC(i, a) == UC("au:" \o ExactFs[i].id \o ":" \o a, "apply_unary", ExactFs[i].f, QA(0, 1), a # "Auto", a)
+AUCalls == <<AUC(1, "Auto"), AUC(1, "Eig"), AUC(1, "Eigh"), AUC(2, "Auto"), AUC(3, "Auto"), AUC(3, "Eigh")>>
+PowAlphas == <<QA(-2, 1), QA(-1, 1), QA(0, 1), QA(1, 1), QA(2, 1), QA(3, 1), QA(9, 1), QA(10, 1),
                QA(1, 2), QA(5, 2), QA(200001, 100000), QA(20001, 10000)>>
+PowAlphasAlg == <<QA(-1, 1), QA(0, 1), QA(2, 1), QA(5, 2)>>
 AlphaId(al) == ToString(al.n) \o "/" \o ToString(al.d)
 PowCalls ==
-    Flatten([i \in 1..Len(PowAlphas) |->
-        <<UC("pow:" \o AlphaId(PowAlphas[i]) \o ":none", "pow", NoF, PowAlphas[i], FALSE, "Auto"),
-          UC("pow:" \o AlphaId(PowAlphas[i]) \o ":Auto", "pow", NoF, PowAlphas[i], TRUE, "Auto")>>])
+    [i \in 1..Len(PowAlphas) |-> UC("pow:" \o AlphaId(PowAlphas[i]) \o ":none", "pow", NoF, PowAlphas[i], FALSE, "Auto")]
+    \o [i \in 1..Len(PowAlphasAlg) |->
+            UC("pow:" \o AlphaId(PowAlphasAlg[i]) \o ":Auto", "pow", NoF, PowAlphasAlg[i], TRUE, "Auto")]
     \o [j \in 1..4 |-> LET a == <<"Eig", "Eigh", "Lanczos", "Arnoldi">>[j] IN
             UC("pow:-1/1:" \o a, "pow", NoF, QA(-1, 1), TRUE, a)]
     \o <<UC("pow:2/1:Eig", "pow", NoF, QA(2, 1), TRUE, "Eig"), UC("pow:5/2:Eigh", "pow", NoF, QA(5, 2), TRUE, "Eigh")>>
@@ -101,21 +103,37 @@ FOf(c) ==
     CASE c.fn = "apply_unary" -> c.f
       [] c.fn \in {"exp", "log"} -> F_Opaque(c.fn)
       [] OTHER -> IF IntLike(c.al) THEN F_IPow(RoundQ(c.al)) ELSE F_PowQ(c.al)
-TameFor(f) == IF f.k = "ipow" THEN PowTame(t, Abs(f.e)) ELSE LamWithin(SpecG(t), 60)
+TameFor(f, s) == (IF f.k = "ipow" THEN PowTameS(t, s, f.e) ELSE LamWithin(s, 60)) /\ ValsTame(f, s)
 DomOf(c, f) ==
     IF c.fn \in {"sqrt", "isqrt", "pow"} /\ ~IntLike(c.al) THEN PowDomain(f, c.al.d, t)
     ELSE IF c.fn = "pow" THEN TRUE ELSE AUDomain(f, t)
 
-UOut(c) ==
+\* compact emission: the six resolutions of inv(V) inside the Eig base case are one token, skeletons are strings
+RECURSIVE Compress(_)
+Compress(c) ==
+    IF c = <<>> THEN <<>>
+    ELSE IF Len(c) >= Len(ELU) /\ SubSeq(c, 1, Len(ELU)) = ELU THEN <<"@ELU">> \o Compress(SubSeq(c, Len(ELU) + 1, Len(c)))
+    ELSE <<Head(c)>> \o Compress(Tail(c))
+RECURSIVE SkelStr(_)
+SkelStr(k) ==
+    LET RECURSIVE J(_)
+        J(i) == IF i > Len(k.a) THEN "" ELSE (IF i > 1 THEN "," ELSE "") \o SkelStr(k.a[i]) \o J(i + 1)
+    IN IF Len(k.a) = 0 THEN k.k ELSE k.k \o "[" \o J(1) \o "]"
+\* calls whose exact value is computed and printed (the others: rule selection, exception, skeleton)
+ValIds == {"au:P2:Auto", "au:P2:Eig", "au:R1:Auto", "au:CI:Auto", "sqrt:none", "isqrt:none", "pow:-2/1:none", "pow:-1/1:none",
+           "pow:0/1:none", "pow:1/1:none", "pow:2/1:none", "pow:3/1:none", "pow:9/1:none", "pow:10/1:none",
+           "pow:200001/100000:none", "pow:-1/1:Eig"}
+WantVal(id) == id \in ValIds
+UOut(c, s) ==
     LET r == RunU(c)
         f == FOf(c)
-        hasval == OK(r) /\ HasSpecG(t) /\ IsSq(t) /\ FExact(f) /\ SpecDefAll(f, SpecG(t)) /\ ValDef(r.val) /\ TameFor(f)
-        v == MNormalize(MatV(r.val))
-    IN [id |-> c.id, calls |-> r.calls, exc |-> r.exc, skel |-> IF OK(r) THEN SkelU(r.val) ELSE SL("Raise"),
+        hasval == WantVal(c.id) /\ OK(r) /\ HasSpecG(t) /\ IsSq(t) /\ FExact(f) /\ SpecDefAll(f, s) /\ TameFor(f, s) /\ ValDefS(r.val, t, s)
+        v == MNormalize(MatVS(r.val, t, s))
+    IN [id |-> c.id, calls |-> Compress(r.calls), exc |-> r.exc, skel |-> IF OK(r) THEN SkelStr(SkelU(r.val)) ELSE "Raise",
         f |-> f.name, hasval |-> hasval,
         val |-> IF hasval THEN v ELSE Zero(0, 0),
         dom |-> IF hasval THEN DomOf(c, f) ELSE TRUE,
-        sound |-> IF hasval THEN MEq(v, SumLamP(FSpecM(f, SpecG(t)))) ELSE TRUE]
+        sound |-> IF hasval THEN MEq(v, SumLamP(FSpecM(f, s))) ELSE TRUE]
 
 \* eig calls
 EigKs == LET n == ShapeOf(t)[1] IN {-1, 0, 1, 2, n, n + 1}
@@ -124,8 +142,8 @@ EigCalls ==
     {EC(k, wh, "Auto"): k \in EigKs, wh \in {"LM", "SM"}}
     \cup {EC(2, "XX", "Auto"), EC(2, "LM", "Eig"), EC(1, "LM", "Eig"), EC(2, "SM", "Eigh"), EC(1, "LM", "PowerIteration"),
           EC(2, "LM", "PowerIteration")}
-EOut(c) ==
-    LET r == EigRule(t, c.k, c.which, c.alg) IN
+EOut(c, bag) ==
+    LET r == EigRuleB(t, bag, c.k, c.which, c.alg) IN
     [k |-> c.k, which |-> c.which, alg |-> c.alg, calls |-> r.calls, exc |-> r.exc,
      vals |-> IF OK(r) THEN r.val.vals ELSE <<>>, amb |-> IF OK(r) THEN r.val.amb ELSE FALSE,
      approx |-> IF OK(r) THEN r.val.approx ELSE FALSE]
@@ -134,35 +152,80 @@ SetToSeqAny(S) ==
         F(T) == IF T = {} THEN <<>> ELSE LET x == CHOOSE y \in T: TRUE IN <<x>> \o F(T \ {x})
     IN F(S)
 
+---------------------------------------------------------------------------
+(* In-run negative controls and defect witnesses.  Every wrong rule variant is an instance of the rule module with the *)
+(* CONSTANT Mutant substituted; its statement is evaluated next to the real one in the states selected by CtlDim /      *)
+(* CtlLvl, and the names of the mutants whose statement is FALSE in the state are printed ("nc").  A control is caught  *)
+(* when it is FALSE in some state (while the invariant of the unchanged rules holds in all).  "wit": the statements     *)
+(* without their domain restriction that are FALSE in the state (defects of the code, confirmed by the replay).         *)
+Algs3 == {"Auto", "Eig", "Eigh"}
+FracAlphas == {QHalf, QMHalf}
+IntKs == {-1, 0, 1, 2, 3, 9}
+SqT == IsSq(t)
+CONSTANTS CtlDim, CtlLvl        \* controls are evaluated on trees with at most CtlDim rows at level <= CtlLvl (0: never)
+M_UBNM == INSTANCE UnaryEigRules WITH Mutant <- "UnaryBlockNoMult"
+M_UTAA == INSTANCE UnaryEigRules WITH Mutant <- "UnaryTransposeAsAdjoint"
+M_UINF == INSTANCE UnaryEigRules WITH Mutant <- "UnaryIdentityNoF"
+M_PKKS == INSTANCE UnaryEigRules WITH Mutant <- "PowKronAsKronSum"
+M_WNC == INSTANCE UnaryEigRules WITH Mutant <- "WindNoCarry"
+M_PIO == INSTANCE UnaryEigRules WITH Mutant <- "PowIntOffByOne"
+M_PNI == INSTANCE UnaryEigRules WITH Mutant <- "PowNegOneNoInv"
+M_EKS == INSTANCE UnaryEigRules WITH Mutant <- "ExpKronSumAsKronSum"
+M_ESA == INSTANCE UnaryEigRules WITH Mutant <- "EigSortAlgebraic"
+M_ELH == INSTANCE UnaryEigRules WITH Mutant <- "EigLMHead"
+M_ETR == INSTANCE UnaryEigRules WITH Mutant <- "EigTriFirstRow"
+CtlState == CtlDim > 0 /\ ShapeOf(t)[1] <= CtlDim /\ lvl <= CtlLvl
+UFs == {ExactFs[i].f: i \in 1..Len(ExactFs)}
+EigArgs == {<<k, wh, a>>: k \in 1..ShapeOf(t)[1], wh \in {"LM", "SM"}, a \in {"Auto", "Eig"}}
+CtlOut ==
+    LET s == SpecG(t)
+        hs == HasSpecG(t) /\ IsSq(t)
+        bag == SpecBag(s)
+        nc == {<<"UnaryBlockNoMult", \A f \in UFs: M_UBNM!UnarySoundAtS(t, s, f, "Auto")>>,
+               <<"UnaryTransposeAsAdjoint", \A f \in UFs: M_UTAA!UnarySoundAtS(t, s, f, "Auto")>>,
+               <<"UnaryIdentityNoF", \A f \in UFs: M_UINF!UnarySoundAtS(t, s, f, "Auto")>>,
+               <<"PowKronAsKronSum", \A al \in FracAlphas: M_PKKS!PowFracSoundAtS(t, s, al, "Auto")>>,
+               <<"WindNoCarry", \A al \in FracAlphas: M_WNC!PowKronDomainAt(t, al, "Auto")>>,
+               <<"PowIntOffByOne", \A k \in {1, 2}: M_PIO!PowIntSoundAtS(t, s, k, "Auto")>>,
+               <<"PowNegOneNoInv", M_PNI!PowIntSoundAtS(t, s, -1, "Auto")>>,
+               <<"ExpKronSumAsKronSum", M_EKS!ExpKronSumSoundAt(t, "Auto")>>,
+               <<"EigSortAlgebraic", hs => \A x \in EigArgs: M_ESA!EigSoundAtB(t, bag, x[1], x[2], x[3])>>,
+               <<"EigLMHead", hs => \A x \in EigArgs: M_ELH!EigSoundAtB(t, bag, x[1], x[2], x[3])>>,
+               <<"EigTriFirstRow", hs => \A x \in EigArgs: M_ETR!EigSoundAtB(t, bag, x[1], x[2], x[3])>>}
+        wit == {<<"UnaryRuleSoundEverywhere", \A f \in UFs: UnarySoundEverywhereAt(t, f, "Auto")>>,
+                <<"PowKronSoundEverywhere", \A al \in FracAlphas: PowFracSoundEverywhereAt(t, al, "Auto")>>,
+                <<"PowIntCompleteEverywhere", \A k \in 0..9: PowIntCompleteEverywhereAt(t, k, "Auto")>>,
+                <<"EigRuleSoundEverywhere", hs => \A wh \in {"LM", "SM"}: EigSoundEverywhereAt(t, 0, wh, "Auto")>>}
+    IN [nc |-> {x[1]: x \in {y \in nc: ~y[2]}}, wit |-> {x[1]: x \in {y \in wit: ~y[2]}}]
+
 Out ==
     LET hs == HasSpecG(t) /\ IsSq(t)
         s == SpecG(t)
     IN [t |-> t, lvl |-> lvl, sh |-> ShapeOf(t), sq |-> IsSq(t), hasspec |-> hs, anns |-> Infer(t),
         herm |-> (IsSq(t) /\ IsHermitian(Denote(t))),
         spec |-> IF hs THEN [i \in 1..Len(s) |-> [lam |-> s[i].lam, P |-> MNormalize(s[i].P), mult |-> Mult(s[i])]] ELSE <<>>,
-        un |-> [i \in 1..Len(UCalls) |-> UOut(UCalls[i])],
-        eig |-> IF hs THEN LET cs == SetToSeqAny(EigCalls) IN [i \in 1..Len(cs) |-> EOut(cs[i])] ELSE <<>>,
+        un |-> [i \in 1..Len(UCalls) |-> UOut(UCalls[i], s)],
+        eig |-> IF hs THEN LET cs == SetToSeqAny(EigCalls) IN [i \in 1..Len(cs) |-> EOut(cs[i], SpecBag(s))] ELSE <<>>,
+        ctl |-> IF CtlState THEN CtlOut ELSE [nc |-> {}, wit |-> {}], ctlstate |-> CtlState,
         guards |-> [powkron |-> PowKronGuard, powkronsquare |-> PowKronSquareGuard, adjoint |-> UnaryAdjointGuard]]
 Chk == ph = "done"
 Emit == (DoEmit /\ Chk) => PrintT(ToJson(Out))
 
 ---------------------------------------------------------------------------
-Algs3 == {"Auto", "Eig", "Eigh"}
-FracAlphas == {QHalf, QMHalf}
-IntKs == {-1, 0, 1, 2, 3, 5, 9}
-SqT == IsSq(t)
 
 SpecGInv == Chk => SpecGValid(t)
-UnaryRuleSound == Chk => \A i \in 1..Len(ExactFs): \A a \in Algs3: UnarySoundAt(t, ExactFs[i].f, a)
-PowFracSound == Chk => \A al \in FracAlphas: PowFracSoundAt(t, al, "Auto")
+UnaryRuleSound == Chk => LET s == SpecG(t) IN \A i \in 1..Len(ExactFs): \A a \in Algs3: UnarySoundAtS(t, s, ExactFs[i].f, a)
+PowFracSound == Chk => LET s == SpecG(t) IN \A al \in FracAlphas: PowFracSoundAtS(t, s, al, "Auto")
 PowKronDomain == Chk => \A al \in FracAlphas: PowKronDomainAt(t, al, "Auto")
-PowIntSound == Chk => /\ \A k \in IntKs: PowIntSoundAt(t, k, "Auto")
-                      /\ PowIntSoundAt(t, -1, "Eig") /\ PowIntSoundAt(t, 10, "Auto") /\ PowIntSoundAt(t, -2, "Auto")
+PowIntSound == Chk => LET s == SpecG(t) IN
+                      /\ \A k \in IntKs: PowIntSoundAtS(t, s, k, "Auto")
+                      /\ PowIntSoundAtS(t, s, -1, "Eig") /\ PowIntSoundAtS(t, s, 10, "Auto") /\ PowIntSoundAtS(t, s, -2, "Auto")
 PowIntComplete == Chk => \A k \in 0..9: PowIntCompleteAt(t, k, "Auto")
 ExpKronSumSound == Chk => ExpKronSumSoundAt(t, "Auto")
 EigRuleSound ==
     (Chk /\ HasSpecG(t) /\ SqT) =>
-        \A k \in 1..ShapeOf(t)[1]: \A wh \in {"LM", "SM"}: \A a \in {"Auto", "Eig"}: EigSoundAt(t, k, wh, a)
+        LET bag == SpecBag(SpecG(t)) IN
+        \A k \in 1..ShapeOf(t)[1]: \A wh \in {"LM", "SM"}: \A a \in {"Auto", "Eig"}: EigSoundAtB(t, bag, k, wh, a)
 \* ---- expected to FAIL (defect witnesses, run separately by the harness)
 UnaryRuleSoundEverywhere == Chk => \A i \in 1..Len(ExactFs): UnarySoundEverywhereAt(t, ExactFs[i].f, "Auto")
 PowKronSoundEverywhere == Chk => \A al \in FracAlphas: PowFracSoundEverywhereAt(t, al, "Auto")
